@@ -634,6 +634,163 @@ where
     kani::cover!(!spec.ok && spec.err_kind == K_CHAR);
 }
 
+/// The dual parser accepts exactly what the RAW parser of the same capacity accepts, with the
+/// same end index and the same error (kind, origin, offset) -- real dual parser vs. real raw
+/// parser on every text "3::" + <= T-3 arbitrary bytes.  (That the raw parser implements the
+/// grammar is decided by the C04 kernel / driver / capacity queries; that a dual hash built from
+/// a raw hash is valid and lossless by C07.)
+fn c04_dual_like_raw<const S1: usize, const S2: usize, const C1: usize, const C2: usize, const T: usize>(fixed: usize)
+where
+    BlockHashSize<S1>: ConstrainedBlockHashSize,
+    BlockHashSize<S2>: ConstrainedBlockHashSize,
+    BlockHashSizes<S1, S2>: ConstrainedBlockHashSizes,
+    ReconstructionBlockSize<S1, C1>: ConstrainedReconstructionBlockSize,
+    ReconstructionBlockSize<S2, C2>: ConstrainedReconstructionBlockSize,
+{
+    // "3::" + (fixed - 3) concrete run-free symbols + (T - fixed) arbitrary bytes, any length
+    // n in fixed..=T; fixed == 0: everything arbitrary.
+    const PREFIX: &[u8; 64] = b"ABCDEFGHIJKLMNOPQRSTUVWXYZabcdefghijklmnopqrstuvwxyz0123456789+/";
+    let mut text: [u8; T] = kani::any();
+    let n = any_len(T);
+    if fixed >= 3 {
+        text[0] = b'3';
+        text[1] = b':';
+        text[2] = b':';
+        let mut i = 3;
+        while i < fixed {
+            text[i] = PREFIX[(i - 3) % 64];
+            i += 1;
+        }
+        kani::assume(n >= fixed);
+    }
+    let (mut i1, mut i2) = (0usize, 0usize);
+    let d = <FuzzyHashDualData<S1, S2, C1, C2>>::from_bytes_with_last_index(&text[..n], &mut i1);
+    let r = <FuzzyHashData<S1, S2, false>>::from_bytes_with_last_index(&text[..n], &mut i2);
+    assert!(d.is_ok() == r.is_ok());
+    assert!(i1 == i2);
+    match (d, r) {
+        (Ok(h), Ok(raw)) => {
+            assert!(h.norm_hash.log_blocksize == raw.log_blocksize);
+            assert!(h.norm_hash.len_blockhash1 <= raw.len_blockhash1 && h.norm_hash.len_blockhash2 <= raw.len_blockhash2);
+        }
+        (Err(a), Err(b)) => assert!(a == b),
+        _ => assert!(false),
+    }
+    kani::cover!(r.is_ok() && n == T);
+    kani::cover!(r.is_err() && n == T);
+}
+/// Cheap stand-in for `compress_block_hash_with_rle` (Kani stubbing): checks the precondition the
+/// real one relies on (input no longer than the block hash buffer -- a `debug_assert!` only in
+/// the crate) and returns an arbitrary length not above the input length.  What the real
+/// function computes for such inputs is decided by the C07 kernel queries.
+fn stub_compress<const SZ_BH: usize, const SZ_RLE: usize>(
+    _blockhash_out: &mut [u8; SZ_BH],
+    _rle_block_out: &mut [u8; SZ_RLE],
+    blockhash_len_out: &mut u8,
+    blockhash_in: &[u8],
+) where
+    BlockHashSize<SZ_BH>: ConstrainedBlockHashSize,
+    ReconstructionBlockSize<SZ_BH, SZ_RLE>: ConstrainedReconstructionBlockSize,
+{
+    kani::assert(blockhash_in.len() <= SZ_BH, "VERIF compress precondition");
+    let l: u8 = kani::any();
+    kani::assume((l as usize) <= blockhash_in.len());
+    *blockhash_len_out = l;
+    let mut i = 0;
+    while i < SZ_RLE {
+        _rle_block_out[i] = rle_encoding::TERMINATOR;
+        i += 1;
+    }
+}
+/// raw length a (norm length, RLE block) pair stands for: norm length + the run extensions
+fn spec_raw_len<const C: usize>(len: u8, rle: &[u8; C]) -> usize {
+    let mut total = len as usize;
+    let mut i = 0;
+    while i < C {
+        if rle[i] & 0x3f != 0 {
+            total += ((rle[i] >> 6) as usize) + 1;
+        }
+        i += 1;
+    }
+    total
+}
+/// The dual parser returns only objects whose block hashes, expanded, fit their capacity
+/// ("3::" + <= 37 arbitrary bytes: block hash 2 of the short form reaches and exceeds 32).
+#[kani::proof]
+#[kani::unwind(66)]
+#[kani::stub(crate::internals::hash_dual::algorithms::compress_block_hash_with_rle, stub_compress)]
+fn c04_dual_accept_within_capacity_t40() {
+    let mut text: [u8; 40] = kani::any();
+    let n = any_len(40);
+    text[0] = b'3';
+    text[1] = b':';
+    text[2] = b':';
+    kani::assume(n >= 3);
+    let d = <FuzzyHashDualData<64, 32, 16, 8>>::from_bytes(&text[..n]);
+    if let Ok(h) = d {
+        assert!(spec_raw_len(h.norm_hash.len_blockhash1, &h.rle_block1) <= 64);
+        assert!(spec_raw_len(h.norm_hash.len_blockhash2, &h.rle_block2) <= 32);
+        kani::cover!(n == 35);
+    }
+    kani::cover!(d.is_err() && n == 40);
+}
+/// the same on texts of the FIXED length 40 ("3::" + 37 arbitrary bytes; shorter block hashes
+/// appear with a ",file name" tail, which the parser ignores)
+#[kani::proof]
+#[kani::unwind(66)]
+#[kani::stub(crate::internals::hash_dual::algorithms::compress_block_hash_with_rle, stub_compress)]
+fn c04_dual_accept_within_capacity_fixed40() {
+    let mut text: [u8; 40] = kani::any();
+    text[0] = b'3';
+    text[1] = b':';
+    text[2] = b':';
+    let d = <FuzzyHashDualData<64, 32, 16, 8>>::from_bytes(&text);
+    if let Ok(h) = d {
+        assert!(spec_raw_len(h.norm_hash.len_blockhash1, &h.rle_block1) <= 64);
+        assert!(spec_raw_len(h.norm_hash.len_blockhash2, &h.rle_block2) <= 32);
+        kani::cover!(h.norm_hash.len_blockhash2 == 32);
+    }
+    kani::cover!(d.is_err());
+}
+/// the same with "3::" + a fixed prefix of P symbols (a run of one symbol when `run`, else
+/// run-free) + arbitrary bytes up to the fixed length 40: cheap, because symbolic execution
+/// constant-folds the parser's state over the fixed part; the free tail crosses the capacity.
+fn c04_dual_capacity_prefix<const P: usize, const T: usize>(run: bool) {
+    const SYMS: &[u8; 32] = b"ABCDEFGHIJKLMNOPQRSTUVWXYZabcdef";
+    let mut text: [u8; T] = kani::any();
+    text[0] = b'3';
+    text[1] = b':';
+    text[2] = b':';
+    let mut i = 0;
+    while i < P {
+        text[3 + i] = if run { b'A' } else { SYMS[i % 32] };
+        i += 1;
+    }
+    let d = <FuzzyHashDualData<64, 32, 16, 8>>::from_bytes(&text);
+    if let Ok(h) = d {
+        assert!(spec_raw_len(h.norm_hash.len_blockhash1, &h.rle_block1) <= 64);
+        assert!(spec_raw_len(h.norm_hash.len_blockhash2, &h.rle_block2) <= 32);
+        kani::cover!(true);
+    }
+    kani::cover!(d.is_err());
+}
+#[kani::proof]
+#[kani::unwind(66)]
+#[kani::stub(crate::internals::hash_dual::algorithms::compress_block_hash_with_rle, stub_compress)]
+fn c04_dual_capacity_prefix_run29() { c04_dual_capacity_prefix::<29, 40>(true) }
+#[kani::proof]
+#[kani::unwind(66)]
+#[kani::stub(crate::internals::hash_dual::algorithms::compress_block_hash_with_rle, stub_compress)]
+fn c04_dual_capacity_prefix_runfree29() { c04_dual_capacity_prefix::<29, 40>(false) }
+#[kani::proof]
+#[kani::unwind(66)]
+#[kani::stub(crate::internals::hash_dual::algorithms::compress_block_hash_with_rle, stub_compress)]
+fn c04_dual_capacity_prefix_run29_t36() { c04_dual_capacity_prefix::<29, 36>(true) }
+#[kani::proof]
+#[kani::unwind(66)]
+#[kani::stub(crate::internals::hash_dual::algorithms::compress_block_hash_with_rle, stub_compress)]
+fn c04_dual_capacity_prefix_runfree29_t36() { c04_dual_capacity_prefix::<29, 36>(false) }
+
 #[kani::proof]
 #[kani::unwind(66)]
 fn c04_dual_driver_short_t10() { c04_dual_driver::<64, 32, 16, 8, 10>(false, 0, false) }
